@@ -502,7 +502,12 @@ func (g *sGraph) wildcards(n *sNode) []string {
 func (g *sGraph) hasMultiEdgeOperand() bool {
 	for _, n := range g.order {
 		if n.kind == sOp && n.op != UnionOperator {
-			for _, grp := range n.groups {
+			for gi, grp := range n.groups {
+				// exclusion: the code takes every edge but the last as the base, which is right for a
+				// base made of several edges; only a subtracted operand of several edges is mishandled
+				if n.op == ExclusionOperator && gi != len(n.groups)-1 {
+					continue
+				}
 				if len(grp) > 1 {
 					return true
 				}
